@@ -226,7 +226,6 @@ scpi_bool_t SCPI_Parse(scpi_t * context, char * data, int len) {
                 context->param_list.cmd_raw.length = state->programHeader.len;
 
                 result &= processCommand(context);
-                cmd_prev = state->programHeader;
             } else {
                 /* place undefined header with error */
                 /* calculate length of errorenous header and trim \r\n */
@@ -235,6 +234,7 @@ scpi_bool_t SCPI_Parse(scpi_t * context, char * data, int len) {
                 SCPI_ErrorPushEx(context, SCPI_ERROR_UNDEFINED_HEADER, data, r2);
                 result = FALSE;
             }
+            cmd_prev = state->programHeader;
         }
 
         if (r < len) {
